@@ -270,7 +270,10 @@ def run_frag(fe, pkt_name, variant):
     w.deliver(wrap(pkt, (), extra=extra))
     mid = dict(w.outcomes)
     o = w.finish()
-    if o['calls'] or mid or o['sent']:
+    # FragIndex 0 alone / FragCount 1 alone describe a packet that is complete in this one envelope: whether such an envelope counts
+    # as fragmented is not settled by the statement (the library drops it, a link service with fragmentation enabled sends it for
+    # every small packet) - no claim either way, only that nothing fails
+    if variant not in ('index', 'count') and (o['calls'] or mid or o['sent']):
         viol.append((f'C10|frag|{fe}|fragment-processed', f'{pkt_name} in a fragmented envelope ({variant}) had an effect: '
                                                           f'calls={o["calls"]} outcomes={mid} sent={len(o["sent"])}'))
     for exc, where in o['failures']:
